@@ -1133,9 +1133,10 @@ def search_union(ck: Check) -> None:
     from . import c05_union
 
     camps = {k: ck.campaign("search (union-typed members): " + k) for k in ("ir", "render", "sem", "oracle")}
-    vs = c05_union.core_block() + c05_union.block(None)
-    for i in range(0, len(vs), 6000):
-        run_batch(ck, camps, vs[i : i + 6000])
+    run_batch(ck, camps, c05_union.core_block())
+    vs = [] if ck.failures else c05_union.block(None)
+    for i in range(0, len(vs), 3000):
+        run_batch(ck, camps, vs[i : i + 3000])
         if ck.failures:
             return
 
@@ -1177,7 +1178,7 @@ def run(ck: Check) -> None:
     if quick:
         prng = ck.rng.fork("pairs")
         pairs = [g for g in pairs if prng.chance(1, 4)]
-    c05_groups.run_batch(ck, camps, pairs + c05_groups.random_groups(ck, 500 if quick else 6000))
+    c05_groups.run_batch(ck, camps, pairs + c05_groups.random_groups(ck, 500 if quick else 3000))
     campaign_order(ck, 200 if quick else 4000)
     ck.notes["space"] = {
         "base_block": "kind x dialect/null-source x required x default class x type x constraint x 7 options (own required list, plain name): 105600 valid vectors",
